@@ -21,5 +21,5 @@ void fx_factor_gssv(fx_t *x, SuperMatrix *B);
 void fx_check_structure(fx_t *x, int topo);
 void fx_check_A_unchanged(fx_t *x);
 int  ref_nonsingular(const slu_vt *vt, csc_q *F, ld *growth_out, ld *minpiv_rel);
-int  count_tasks(void); int count_fds(void);
+int  count_tasks(void); int count_fds(void); int tasks_after(int expected);
 #endif
